@@ -120,11 +120,12 @@ PROPS["C10"] = {
         Job(".", "H_compileRace", "0,0", workers=2, note="ids of two concurrent compilations"),
         Job(".", "H_compileRace", "0,7", workers=2, note="ids of two concurrent compilations"),
         Job("soymsg", "H_baseName", "1..4", workers=16, maxfan=16),
+        Job("soymsg", "H_tagName", "1..3,0..3", workers=16, maxfan=16),
         Job("soyhtml", "H_msgPositions", "0..13", workers=8),
         Job("soymsg", "H_fp", "26..40", tier="thorough", workers=8, qtimeout=3000, allow_inconclusive=True, note="3 blocks"),
         Job("soymsg", "H_id", "5..13,0..3", tier="thorough", workers=8, qtimeout=3000, allow_inconclusive=True, note="longer text"),
     ],
-    "bounds_quick": "fingerprint vs the official algorithm for every byte string of each length 0..25 (0, 1 and 2 twelve-byte blocks, every tail length); calcID with symbolic text (<= 4 bytes), description (2 bytes, two independent copies) and meaning (<= 2 bytes); the id of 8 structured messages (placeholders, html tags, plural) with a symbolic meaning (<= 2 bytes) and description against the official id of their placeholder string; base-name derivation (toUpperUnderscore and genBasePlaceholderName) for every identifier of <= 4 characters over {a,b,A,B,1,2,_} against a regexp-free reference; the id/placeholder pass (parsepasses.ProcessMessages) on a message placed in 14 containers (if/elseif/else, switch cases, foreach/ifempty, for, let content, call param content - also nested -, log) against the same message at top level; message ids and placeholder names computed by two compilations running at once (happens-before check of every heap access, both run-queue disciplines) equal those computed alone; placeholder naming for a dictionary of 14 messages (incl. one expression under different directives / directive arguments / access styles and link tags differing in an attribute) under an arbitrary iteration order of each of the 4 map loops of setPlaceholderNames, one loop at a time",
+    "bounds_quick": "fingerprint vs the official algorithm for every byte string of each length 0..25 (0, 1 and 2 twelve-byte blocks, every tail length); calcID with symbolic text (<= 4 bytes), description (2 bytes, two independent copies) and meaning (<= 2 bytes); the id of 8 structured messages (placeholders, html tags, plural) with a symbolic meaning (<= 2 bytes) and description against the official id of their placeholder string; base-name derivation (toUpperUnderscore and genBasePlaceholderName) for every identifier of <= 4 characters over {a,b,A,B,1,2,_} against a regexp-free reference; the base name of html tags (<n>, </n>, <n/>, <n x=..>) whose name is <= 3 characters over {a,b,i,p,Z,1,-,:,_,space} (pretty names, names ending at the first non-alphanumeric); the id/placeholder pass (parsepasses.ProcessMessages) on a message placed in 14 containers (if/elseif/else, switch cases, foreach/ifempty, for, let content, call param content - also nested -, log) against the same message at top level; message ids and placeholder names computed by two compilations running at once (happens-before check of every heap access, both run-queue disciplines) equal those computed alone; placeholder naming for a dictionary of 14 messages (incl. one expression under different directives / directive arguments / access styles and link tags differing in an attribute) under an arbitrary iteration order of each of the 4 map loops of setPlaceholderNames, one loop at a time",
     "bounds_thorough": "fingerprint lengths up to 40; text up to 13 bytes, meaning up to 3",
     "outside": "strings longer than the bound; collision-freeness (a 63-bit id cannot be injective); the branch hi==0 && lo in {0,1} is a hash pre-image question: explored under a 3 s query timeout and counted as inconclusive when the solver gives up; several map loops permuted at once (only one loop's order influences the result, shown per loop); across-process stability follows from calcID reading nothing but the node",
     "assumptions": ["refFingerprint/refID/refNames (harness) are transliterations of the official SoyMsgIdComputer and MsgNode.genSubstUnitInfo; refID is validated on every run against the official ids pinned in soy's tests"],
@@ -172,6 +173,7 @@ PROPS["C01"] = {
         Job("parse", "H_quote", "0..3", workers=8),
         Job("parse", "H_unquote", "0..2", workers=8),
         Job("parse", "H_unquotePre", "1..4,0..3", workers=16),
+        Job("parse", "H_unquotePre", "1,4", workers=16, note="unicode escapes"),
         Job("parse", "H_scanNumber", "1..4", workers=16),
         Job("parse", "H_quote", "4", tier="thorough", workers=16),
         Job("parse", "H_unquote", "3", tier="thorough", workers=16),
@@ -215,6 +217,7 @@ PROPS["C08"] = {
         Job("soyhtml", "H_pure", "0..2,0..1,false,0..5", workers=8),
         Job("soyhtml", "H_pure", "0..2,0..1,true,0..7", workers=8),
         Job("soyhtml", "H_pure", "3,0,false,0..6", workers=8, note="through a translating catalogue"),
+        Job("soyhtml", "H_pure", "4,0,false,0..5", workers=8, note="deep recursion and data= maps with params"),
         Job(".", "H_renderAfterJS", "0..1,false", workers=8, note="JS generation between renders"),
         Job(".", "H_renderAfterJS", "0..1,true", workers=8, note="JS generation between renders"),
     ],
@@ -233,6 +236,7 @@ PROPS["C09"] = {
         Job("soyhtml", "H_pure", "0..2,0..1,false,0..5", workers=8),
         Job("soyhtml", "H_pure", "0..2,0..1,true,0..7", workers=8),
         Job("soyhtml", "H_pure", "3,0,false,0..6", workers=8, note="through a translating catalogue"),
+        Job("soyhtml", "H_pure", "4,0,false,0..5", workers=8, note="deep recursion and data= maps with params"),
         Job(".", "H_renderAfterJS", "0..1,false", workers=8, note="JS generation between renders"),
         Job(".", "H_renderAfterJS", "0..1,true", workers=8, note="JS generation between renders"),
         Job("soyjs", "H_jsPure", "0..2,false", workers=2),
@@ -260,8 +264,8 @@ PROPS["C13"] = {
         Job("soyjs", "H_jsAfterFailure", "0..2,0..2,true", workers=4, note="generation after a failed generation"),
         Job("soyjs", "H_jsOrder", "0..2,-1..3,false", workers=8, timeout=300),
         Job("soyjs", "H_jsOrder", "0..2,-1..3,true", workers=8, timeout=300),
-        Job(".", "H_bundle", "0..14,0", workers=8, timeout=400, per_map_site=r"^(ast|data|parse|parsepasses|soyhtml|soyjs|soymsg|template|bundle|globals)"),
-        Job(".", "H_bundle", "0..14,1..5", workers=8, timeout=400, note="file insertion orders"),
+        Job(".", "H_bundle", "0..15,0", workers=8, timeout=400, per_map_site=r"^(ast|data|parse|parsepasses|soyhtml|soyjs|soymsg|template|bundle|globals)"),
+        Job(".", "H_bundle", "0..15,1..5", workers=8, timeout=400, note="file insertion orders"),
     ],
     "bounds": "real soy.NewBundle().AddTemplateString(..).AddGlobalsMap(..).Compile() + Tofu rendering + soyjs.Write (ES5 and ES6) for 8 bundles, each compiled twice from the same Bundle object and a third time through CompileToTofu (valid with messages/globals/map literals/cross-file calls; rejected by the data-ref checker, the parser, the globals pass; two independent errors; duplicate template name; header params without soydoc); every map-range site reached in the soy packages is given an arbitrary iteration order, one site at a time (all permutations up to 5 keys; for larger maps an arbitrary key first and an arbitrary key last); all 6 insertion orders of up to 3 files",
     "outside": "two or more loops permuted simultaneously (order dependence that needs a particular combination); bundles outside the dictionary; file-system loading and the watcher",
@@ -277,11 +281,12 @@ PROPS["C17"] = {
         Job("parse", "H_roundLeaf", "0..19,0..7", workers=8),
         Job("parse", "H_roundWrapOp", "0..16,3..7", workers=8),
         Job("parse", "H_roundOperands", "0..16,0..15,0..15", workers=16),
+        Job("parse", "H_roundChain", "0..13,150", workers=14, maxsteps=6000000),
         Job("parse", "H_roundStr", "0..2,1..4", workers=16),
         Job("parse", "H_roundOps", "0..16,0..16,0..2", workers=16),
         Job("parse", "H_roundPrint", "0..19,0..3", workers=8),
     ],
-    "bounds": "expression trees: every leaf kind (ints incl. negative and 2^53, floats incl. integral and exponent forms and 16 boundary magnitudes (2^63, 2^64, 1e15..1e22, 1e-7, max, min subnormal), bool, null, strings of 1 symbolic byte quoted by the real quoteString, data references with every access kind, globals, function calls, list and map literals, empty literals) alone and under negate/not/index/call/list/map/access-chain wrappers; every operator over every pair of 16 operand spellings (null-safe and plain accesses, calls, literals, signs, globals, $ij); every operator inside each bracketing wrapper (with a symbolic string operand); string literals and map keys of any valid UTF-8 of <= 4 bytes; every operator (14 binary, 2 unary, ternary) over every operator in every operand position (depth 2); print commands with 0..2 directives with arguments",
+    "bounds": "expression trees: every leaf kind (ints incl. negative and 2^53, floats incl. integral and exponent forms and 16 boundary magnitudes (2^63, 2^64, 1e15..1e22, 1e-7, max, min subnormal), bool, null, strings of 1 symbolic byte quoted by the real quoteString, data references with every access kind, globals, function calls, list and map literals, empty literals) alone and under negate/not/index/call/list/map/access-chain wrappers; every operator over every pair of 16 operand spellings (null-safe and plain accesses, calls, literals, signs, globals, $ij); flat chains of 150 operands under each binary operator and of 150 accesses; every operator inside each bracketing wrapper (with a symbolic string operand); string literals and map keys of any valid UTF-8 of <= 4 bytes; every operator (14 binary, 2 unary, ternary) over every operator in every operand position (depth 2); print commands with 0..2 directives with arguments",
     "outside": "nesting depth > 2 of operators (parenthesisation is decided pairwise, so depth 2 covers each parent/child combination once); strings longer than 4 bytes",
     "assumptions": ["sameTree (harness): structural equality ignoring positions and the Quoted/Name presentation fields"],
     "level_text": "Bounded symbolic model checking over expression trees enumerated up to depth 2 with symbolic string bytes: print with the real String methods, parse with the real parser, compare structurally.",
@@ -296,6 +301,7 @@ PROPS["C19"] = {
         Job("soyhtml", "H_rendererr", "0..2,4,false", workers=8),
         Job("soyhtml", "H_rendererr", "0..2,4,true", workers=8, note="both files in one namespace"),
         Job("soyhtml", "H_writeerrpos", "3", workers=8),
+        Job("soyhtml", "H_rendererrKinds", "1..2,0..7", workers=8),
         Job("soyhtml", "H_rendererrMsg", "4,false", workers=4),
         Job("soyhtml", "H_rendererrMsg", "4,true", workers=4),
         Job("parse", "H_parseCtx", "0..77,0..1,false", workers=16, maxsteps=300000),
@@ -303,7 +309,7 @@ PROPS["C19"] = {
         Job("parse", "H_parseCtx", "0..77,2,false", tier="thorough", workers=16, maxsteps=300000, note="k=2"),
         Job("parse", "H_errpos", "0..11,0..2,7", tier="thorough", workers=16, note="7 lines"),
     ],
-    "bounds": "parse errors: 12 fault kinds injected on a symbolically chosen line of a 4-line (thorough 7) template body with LF, CRLF and blank-line separators: file name, exact line (point faults) or line within [construct start, end of input] (constructs left open), same numbers in the message text; on the C05 context harnesses (arbitrary symbolic bytes) every parse error carries the given file name and a line within 1..1+count(LF). Render errors: failing command on a symbolically chosen line at call depth 0..2 across two files (in different namespaces and in one shared namespace); render errors raised inside a {msg} (from the source and through a translating catalogue) whose message also occurs, and renders, in a called template before and after; render errors caused by a write failure at a symbolically chosen write of a 3-line template",
+    "bounds": "parse errors: 12 fault kinds injected on a symbolically chosen line of a 4-line (thorough 7) template body with LF, CRLF and blank-line separators: file name, exact line (point faults) or line within [construct start, end of input] (constructs left open), same numbers in the message text; on the C05 context harnesses (arbitrary symbolic bytes) every parse error carries the given file name and a line within 1..1+count(LF). Render errors: failing command on a symbolically chosen line at call depth 0..2 across two files (in different namespaces and in one shared namespace); render errors of 8 kinds (undefined value, directive / function given a wrong argument, user function panicking with an error value, arithmetic error, unknown directive, failing condition, non-list loop) one and two calls deep in another file; render errors raised inside a {msg} (from the source and through a translating catalogue) whose message also occurs, and renders, in a called template before and after; render errors caused by a write failure at a symbolically chosen write of a 3-line template",
     "outside": "column numbers are only required to agree between ErrFilePos and the message text; files longer than the bound",
     "assumptions": [],
     "level_text": "Bounded symbolic model checking: the fault position is a solver-chosen value and, on the context harnesses, the whole input suffix is symbolic; position bookkeeping of every error path reached is compared with the injected position.",
@@ -348,11 +354,12 @@ PROPS["C14"] = {
         Job("soyjs", "H_jsLong", "0..5,0..4,0..5,0..3", workers=16, maxsteps=3000000, note="long text"),
         Job("soyjs", "H_jsLong", "0..5,5..6,0..5,0..3", tier="thorough", workers=16, maxsteps=3000000, note="longer text"),
         Job("soyjs", "H_jsLiteralIn", "0..15,0..2", workers=8),
+        Job("soyjs", "H_jsSource", "0..3", workers=16),
         Job("soyjs", "H_jsStruct", "0..3,false", workers=4),
         Job("soyjs", "H_jsStruct", "0..3,true", workers=4),
         Job("soyjs", "H_jsLiteral", "0..5,3,0", tier="thorough", workers=16),
     ],
-    "bounds_quick": "string emission at 6 sites (raw text, string literal, map literal key, css suffix, global string value, message text) with <= 2 symbolic ASCII bytes (all 128 values incl. quotes, backslash, controls, line terminators), and <= 1 byte combined with U+00E9, U+2028, U+2029, U+1F600 or the text </script>: the emitted token is one well-formed, script-safe literal (for appended text: one or several append statements, each literal valid UTF-8) that decodes to the original characters; the same literal at 16 positions of commands (print, call param values with and without data=all, let, if, switch case, function and directive arguments, index, loop list, ?: and ternary operands, call data map, message placeholder, css, log) is emitted as the same token; long text: a padding that places a 2-, 3- or 4-byte character (U+00E9, U+20AC, U+2028, U+1F600) across or next to every power-of-two offset 64..1024 (thorough: ..4096) followed by a symbolic byte, at each site; structure of the generated files for 4 bundles (incl. namespaces with repeated segments) x 2 formatters (every prefix of the namespace declared outermost first before the functions, one function per template under its qualified/exported name, balanced brackets outside literals, identifier-shaped variable names)",
+    "bounds_quick": "string emission at 6 sites (raw text, string literal, map literal key, css suffix, global string value, message text) with <= 2 symbolic ASCII bytes (all 128 values incl. quotes, backslash, controls, line terminators), and <= 1 byte combined with U+00E9, U+2028, U+2029, U+1F600 or the text </script>: the emitted token is one well-formed, script-safe literal (for appended text: one or several append statements, each literal valid UTF-8) that decodes to the original characters; the same literal at 16 positions of commands (print, call param values with and without data=all, let, if, switch case, function and directive arguments, index, loop list, ?: and ternary operands, call data map, message placeholder, css, log) is emitted as the same token; a literal of <= 3 symbolic characters spelled in template source (with the language's escapes) through the real parser and the generator; long text: a padding that places a 2-, 3- or 4-byte character (U+00E9, U+20AC, U+2028, U+1F600) across or next to every power-of-two offset 64..1024 (thorough: ..4096) followed by a symbolic byte, at each site; structure of the generated files for 4 bundles (incl. namespaces with repeated segments) x 2 formatters (every prefix of the namespace declared outermost first before the functions, one function per template under its qualified/exported name, balanced brackets outside literals, identifier-shaped variable names)",
     "bounds_thorough": "3 symbolic bytes per site",
     "outside": "full-script syntactic validity: needs a JavaScript parser inside the solver loop, which is not available; only literal tokens and the bracket/definition structure are decided. Whole-template generation with symbolic text through the parser.",
     "assumptions": ["refJSLiteral (harness): reference decoder of ECMAScript string literal bodies"],
@@ -389,13 +396,13 @@ PROPS["C07"] = {
         Job("soyhtml", "H_datarefsBind", "2,4,false,false", tier="thorough", workers=16, timeout=3000),
         Job("soyhtml", "H_datarefsBind", "2,4,true,false", tier="thorough", workers=16, timeout=3000),
         Job("soyhtml", "H_bothParamStyles", "0..2", workers=2),
-        Job(".", "H_recompile", "0..5", workers=4),
+        Job(".", "H_recompile", "0..9", workers=4),
         Job("soyhtml", "H_datarefs", "1,2,false,true", tier="thorough", workers=16, timeout=3000),
         Job("soyhtml", "H_datarefsLate", "1,2,2", tier="thorough", workers=16, timeout=3000),
         Job("soyhtml", "H_datarefs", "2,2,true,false", tier="thorough", workers=16, timeout=3000),
         Job("soyhtml", "H_datarefs", "2,2,false,false", tier="thorough", workers=16, timeout=3000),
     ],
-    "bounds_quick": "bundles generated around binding structure: a template with params l, m and (by configuration) a / optional b, a body of at most 2 generated nodes up to nesting depth 2 among print ($a,$b,$c,$i,$ij.x), let value / let content (names a, c, ij), if, foreach, call (existing callee with optional params, callee with a required param, missing callee; data none/all/$m; param k, undeclared zz, required q; value or content param) plus a fixed trailer; the soydoc of the callee with a required param lists it before or after the optional one (a choice); a second generator profile restricted to binding structure (print, let value, let content, if, foreach; lets may be named like the loop variable) with 3 nodes, with and without the params a and b declared (so that every declared name can be used within the budget); CheckDataRefs accepts exactly the bundles the declarative rule set accepts; for accepted bundles a render with every declared param supplied triggers the lookup observer (hook) only for optional params a callee was not passed; the same bundles followed or preceded by a template with an unused param (state carried from one template's check to the next); both-param-styles rule on 3 concrete templates; 6 bundles with header or soydoc params (valid, or with one rule broken) compiled repeatedly through one Bundle value",
+    "bounds_quick": "bundles generated around binding structure: a template with params l, m and (by configuration) a / optional b, a body of at most 2 generated nodes up to nesting depth 2 among print ($a,$b,$c,$i,$ij.x), let value / let content (names a, c, ij), if, foreach, call (existing callee with optional params, callee with a required param, missing callee; data none/all/$m; param k, undeclared zz, required q; value or content param) plus a fixed trailer; the soydoc of the callee with a required param lists it before or after the optional one (a choice); a second generator profile restricted to binding structure (print, let value, let content, if, foreach; lets may be named like the loop variable) with 3 nodes, with and without the params a and b declared (so that every declared name can be used within the budget); CheckDataRefs accepts exactly the bundles the declarative rule set accepts; for accepted bundles a render with every declared param supplied triggers the lookup observer (hook) only for optional params a callee was not passed; the same bundles followed or preceded by a template with an unused param (state carried from one template's check to the next); both-param-styles rule on 3 concrete templates; 10 bundles with header or soydoc params, incl. templates without a soydoc comment after a documented one (valid, or with one rule broken), compiled repeatedly through one Bundle value",
     "bounds_thorough": "the other param-declaration configurations; binding-structure profile with 4 nodes. (3 nodes of the full grammar were tried: > 2.4 million paths, not finished in 50 min, not registered.)",
     "outside": "bundles beyond the size bound; {msg} bodies; several files/namespaces (the rules are per template and callee lookup is by qualified name)",
     "assumptions": ["c07Check (harness) is a declarative transcription of the rules in the property statement: references resolve to the innermost enclosing let defined earlier, a loop variable inside its loop, a declared param, or $ij; data=\"all\" forwards params (never lets) and counts as their use"],
